@@ -132,3 +132,43 @@ m("c14-scan-stops-at-boundary", ["C14", "C05"], "osaca/semantics/kernel_dg.py",
             tmp_kernel.append(temp_iform)""")
 m("c14-dedupe-by-root", ["C14", "C05"], "osaca/semantics/kernel_dg.py",
   "            lat_path.sort()\n", "            pass\n")
+
+# ---- C09 / C10 parsers
+m("c09-scale-default-0", ["C09"], "osaca/parser/parser_x86att.py",
+  'scale = 1 if "scale" not in memory_address else int(memory_address["scale"], 0)',
+  'scale = 0 if "scale" not in memory_address else int(memory_address["scale"], 0)')
+m("c09-hex-offset-lost", ["C09"], "osaca/parser/parser_x86att.py",
+  """        elif offset is not None and "value" in offset:
+            offset = ImmediateOperand(value=int(offset["value"], 0))""",
+  """        elif offset is not None and "value" in offset:
+            offset = ImmediateOperand(value=int(offset["value"].replace("0x", ""), 10) if "a" not in offset["value"] and "b" not in offset["value"] and "c" not in offset["value"] and "d" not in offset["value"] and "e" not in offset["value"] and "f" not in offset["value"] and "A" not in offset["value"] and "B" not in offset["value"] and "C" not in offset["value"] and "D" not in offset["value"] and "E" not in offset["value"] and "F" not in offset["value"] else int(offset["value"], 0))""")
+m("c09-numbering", ["C09", "C10"], "osaca/parser/base_parser.py",
+  "        for i, line in enumerate(lines):\n            if line.strip() == \"\":\n                continue\n            asm_instructions.append(self.parse_line(line, i + 1 + start_line))",
+  "        i = -1\n        for line in lines:\n            if line.strip() == \"\":\n                continue\n            i += 1\n            asm_instructions.append(self.parse_line(line, i + 1 + start_line))")
+m("c09-index-base-swapped", ["C09"], "osaca/parser/parser_x86att.py",
+  "        new_dict = MemoryOperand(offset=offset, base=baseOp, index=indexOp, scale=scale)",
+  "        new_dict = MemoryOperand(offset=offset, base=baseOp if indexOp is None or baseOp is None else indexOp, index=indexOp if indexOp is None or baseOp is None else baseOp, scale=scale)")
+m("c09-imm-sign", ["C09"], "osaca/parser/parser_x86att.py",
+  '        new_immediate = ImmediateOperand(value=int(immediate["value"], 0))',
+  '        new_immediate = ImmediateOperand(value=abs(int(immediate["value"], 0)) if int(immediate["value"], 0) < -2**40 else int(immediate["value"], 0))')
+m("c10-shift-scale", ["C10"], "osaca/parser/parser_AArch64.py",
+  '                    scale = 2 ** int(memory_address["index"]["shift"][0]["value"])',
+  '                    scale = 2 * int(memory_address["index"]["shift"][0]["value"])')
+m("c10-postindex-lost-sign", ["C10"], "osaca/parser/parser_AArch64.py",
+  '                new_dict.post_indexed = {"value": int(memory_address["post_indexed"]["value"], 0)}',
+  '                new_dict.post_indexed = {"value": abs(int(memory_address["post_indexed"]["value"], 0))}')
+m("c10-range-off-by-one", ["C10"], "osaca/parser/parser_AArch64.py",
+  "            for name in range(int(start_name), int(end_name) + 1):",
+  "            for name in range(int(start_name), int(end_name)):")
+m("c10-list-index-lost", ["C10"], "osaca/parser/parser_AArch64.py",
+  """            for reg in operand["register"]["list"]:
+                reg = deepcopy(reg)
+                if index is not None:""",
+  """            for reg in operand["register"]["list"]:
+                reg = deepcopy(reg)
+                if index is not None and False:""")
+m("c10-sp-base-prefix", ["C10"], "osaca/parser/parser_AArch64.py",
+  """        if base is not None and "name" in base and base["name"].lower() == "sp":
+            base["prefix"] = "x\"""",
+  """        if base is not None and "name" in base and base["name"].lower() == "sp":
+            base["prefix"] = "w\"""")
